@@ -22,6 +22,10 @@ KEY_VALUES: Dict[str, Any] = {
 }
 
 
+# falsy-but-not-None values (a truthiness test where an `is not None` test is meant shows only on these)
+FALSY_VALUES: Dict[str, Any] = {"a": 0.0, "b": 0, "r": 0.0, "factor": 0.0, "addend": 0, "value": 0.0, "gain": False, "path": "p0.txt", "t_values": 0.0}
+
+
 def _n(proc, params=None, **extra):
     d: Dict[str, Any] = {"processor": proc}
     if params is not None:
@@ -81,12 +85,15 @@ SYMBOLS: Dict[str, dict] = {
     # slicers
     "slice_mul": dict(node=_n("slice:VMul:FloatDataCollection"), kind="slicer_op", proc="VMul", params=[("factor", NODEF)], cfg={}, reads=["factor"]),
     "slice_muldef": dict(node=_n("slice:VMulDef:FloatDataCollection"), kind="slicer_op", proc="VMulDef", params=[("factor", 2.0)], cfg={}, reads=["factor"]),
+    "slice_mul3": dict(node=_n("slice:VMul:FloatDataCollection", {"factor": 3.0}), kind="slicer_op", proc="VMul", params=[("factor", NODEF)], cfg={"factor": 3.0}, reads=["factor"]),
     "slice_probe": dict(node=_n("slice:VProbe:FloatDataCollection", context_key="r"), kind="slicer_probe", proc="VProbe", ckey="r", params=[], cfg={}, reads=["r"]),
     # sweeps (deep coverage lives in C03)
     "sweep_src": dict(node=_sweep("VSrc", {"value": "2.0 * t"}, {"t": {"values": [1.0, 2.0, 3.0]}}, "FloatDataCollection"),
                       kind="sweep_src", proc="VSrc", vars={"t": [1.0, 2.0, 3.0]}, params=[], cfg={}, reads=["t_values"]),
     "sweep_op": dict(node=_sweep("VMul", {"factor": "t"}, {"t": {"values": [1.0, 2.0]}}, "FloatDataCollection"),
                      kind="sweep_op", proc="VMul", vars={"t": [1.0, 2.0]}, params=[], cfg={}, reads=["t_values"]),
+    "sweep_two": dict(node=_sweep("VTwo", {"factor": "t"}, {"t": {"values": [1.0, 2.0]}}, "FloatDataCollection"),
+                      kind="sweep_op", proc="VTwo", vars={"t": [1.0, 2.0]}, params=[("addend", 0.5)], cfg={}, reads=["t_values", "addend"]),
     "sweep_probe": dict(node=_sweep("VFactorProbe", {"factor": "t"}, {"t": {"values": [1.0, 2.0]}}, None, context_key="r"),
                         kind="sweep_probe", proc="VFactorProbe", ckey="r", vars={"t": [1.0, 2.0]}, params=[], cfg={}, reads=["t_values", "r"]),
     # sinks
@@ -180,6 +187,11 @@ def contexts_for(prog: Sequence[str], max_keys: int = 4, extra: bool = True) -> 
     for r in range(len(ks) + 1):
         for sub in itertools.combinations(ks, r):
             out.append({k: KEY_VALUES.get(k, 0.0625) for k in sub})
+    if ks:
+        # unusual-but-legal values: every readable key present with a falsy (but not None) value
+        out.append({k: FALSY_VALUES.get(k, 0.0) for k in ks})
+        if len(ks) > 1:
+            out.append({ks[0]: FALSY_VALUES.get(ks[0], 0.0)})
     if extra:
         out.append({"zz": KEY_VALUES["zz"]})
     return out
